@@ -158,6 +158,12 @@ func (el *eventloop) cread(c *conn) error {
 
 		out, action := el.eventHandler.OnCReact(r, c)
 		if out != nil {
+			// The request is answered here and now. Fragments of it that were already handed to a
+			// backend (a multi-key request whose later keys could not be routed) must not touch the
+			// request again when their replies arrive: it is about to be recycled.
+			for _, f := range r.Body {
+				f.Done = true
+			}
 			if c.inMsgQueue.Empty() {
 				// Encode data and try to write it back to the peer, this attempt is based on a fact:
 				// the peer socket waits for the response data after sending request data to the server,
